@@ -18,6 +18,8 @@ pub enum Node {
     Len16(Vec<Node>),
     /// trailing blob whose length is only given by the enclosing length (key, digest, signature ...)
     Tail(Vec<u8>),
+    /// a label of a name: one length octet + content, like `Len8`, but no integer field interprets it
+    Label(Vec<u8>),
 }
 
 /// Serialise; `false` if some content does not fit the width of its length field.
@@ -25,6 +27,13 @@ pub fn serialize(nodes: &[Node], out: &mut Vec<u8>) -> bool {
     for n in nodes {
         match n {
             Node::Bytes(b) | Node::Tail(b) => out.extend_from_slice(b),
+            Node::Label(b) => {
+                if b.len() > 255 {
+                    return false;
+                }
+                out.push(b.len() as u8);
+                out.extend_from_slice(b);
+            }
             Node::Len8(c) => {
                 let at = out.len();
                 out.push(0);
@@ -70,7 +79,7 @@ pub fn fields(nodes: &[Node]) -> Vec<Vec<usize>> {
                     out.push(prefix.clone());
                     rec(c, prefix, out);
                 }
-                Node::Tail(_) => out.push(prefix.clone()),
+                Node::Tail(_) | Node::Label(_) => out.push(prefix.clone()),
                 Node::Bytes(_) => {}
             }
             prefix.pop();
@@ -95,7 +104,7 @@ fn node_at<'a>(nodes: &'a [Node], path: &[usize]) -> &'a Node {
 /// Width class of the field: 8 (one length octet) or 16 (16-bit length / implicit length).
 pub fn width(nodes: &[Node], path: &[usize]) -> u8 {
     match node_at(nodes, path) {
-        Node::Len8(_) => 8,
+        Node::Len8(_) | Node::Label(_) => 8,
         _ => 16,
     }
 }
@@ -104,7 +113,7 @@ pub fn width(nodes: &[Node], path: &[usize]) -> u8 {
 pub fn content_len(nodes: &[Node], path: &[usize]) -> usize {
     match node_at(nodes, path) {
         Node::Len8(c) | Node::Len16(c) => flat(c).len(),
-        Node::Tail(b) | Node::Bytes(b) => b.len(),
+        Node::Tail(b) | Node::Bytes(b) | Node::Label(b) => b.len(),
     }
 }
 
@@ -127,6 +136,7 @@ pub fn resize(nodes: &[Node], path: &[usize], len: usize, fill: u8) -> Vec<Node>
             Node::Len8(c) => Node::Len8(vec![Node::Bytes(fit(flat(c)))]),
             Node::Len16(c) => Node::Len16(vec![Node::Bytes(fit(flat(c)))]),
             Node::Tail(b) => Node::Tail(fit(b.clone())),
+            Node::Label(b) => Node::Label(fit(b.clone())),
             Node::Bytes(b) => Node::Bytes(b.clone()),
         };
     }
@@ -179,7 +189,9 @@ impl<'a> P<'a> {
             if l & 0xc0 != 0 {
                 return None;
             }
-            self.len8()?;
+            let s = self.b.get(self.p + 1..self.p + 1 + l as usize)?;
+            self.out.push(Node::Label(s.to_vec()));
+            self.p += 1 + l as usize;
         }
     }
     /// type bitmap: (window octet, length octet, bitmap)*
@@ -279,10 +291,17 @@ pub fn rdata_layout(rtype: u16, wire: &[u8]) -> Option<Vec<Node>> {
             }
         }
         // OPT (RFC 6891 6.1.2): (code, length, data)*
+        // (RFC 7871 6: code 8 = FAMILY, SOURCE PREFIX-LENGTH, SCOPE PREFIX-LENGTH, ADDRESS...)
         41 => {
             while p.p < wire.len() {
+                let code = u16::from_be_bytes([*wire.get(p.p)?, *wire.get(p.p + 1)?]);
                 p.bytes(2)?;
-                p.len16()?;
+                let v = p.len16_raw()?;
+                if code == 8 && v.len() >= 4 {
+                    p.out.push(Node::Len16(vec![Node::Bytes(v[..4].to_vec()), Node::Tail(v[4..].to_vec())]));
+                } else {
+                    p.out.push(Node::Len16(vec![Node::Tail(v)]));
+                }
             }
         }
         // TSIG (RFC 8945 4.2)
@@ -332,7 +351,7 @@ pub fn message_tree(rtype: u16, rdata: Vec<Node>) -> (Vec<Node>, usize) {
     let mut t = vec![Node::Bytes(vec![0x66, 0x66, 0x01, 0x00, 0, 1, 0, 0, 0, 0, 0, 1])];
     let name = |labels: &[&[u8]], t: &mut Vec<Node>| {
         for l in labels {
-            t.push(Node::Len8(vec![Node::Bytes(l.to_vec())]));
+            t.push(Node::Label(l.to_vec()));
         }
         t.push(Node::Bytes(vec![0]));
     };
@@ -405,6 +424,124 @@ pub fn resize_family(tree: &[Node], rd_at: usize, mut f: impl FnMut(&[Node], Str
                         count += 1;
                     }
                 }
+            }
+        }
+    }
+    count
+}
+
+// ------------------------------------------------------------------------------------------
+// family 8: value of a fixed octet x consistent resize of a variable-length field
+
+/// Lengths the variable-length field is resized to.
+pub fn f8_lengths() -> Vec<usize> {
+    (0..=20).chain(31..=33).chain(63..=65).chain([255]).collect()
+}
+
+/// (path of a `Bytes` node, octet index) of every fixed octet below `nodes`; the root octet of a name is none.
+fn fixed_octets(nodes: &[Node], prefix: &mut Vec<usize>, deep: bool, out: &mut Vec<(Vec<usize>, usize)>) {
+    for (i, n) in nodes.iter().enumerate() {
+        prefix.push(i);
+        match n {
+            Node::Bytes(b) => {
+                let name_root = b.len() == 1 && b[0] == 0 && i > 0 && matches!(nodes[i - 1], Node::Label(_));
+                if !name_root {
+                    for j in 0..b.len() {
+                        out.push((prefix.clone(), j));
+                    }
+                }
+            }
+            Node::Len8(c) | Node::Len16(c) if deep => fixed_octets(c, prefix, deep, out),
+            _ => {}
+        }
+        prefix.pop();
+    }
+}
+
+fn set_octet(nodes: &mut [Node], path: &[usize], j: usize, v: u8) {
+    let n = &mut nodes[path[0]];
+    if path.len() > 1 {
+        if let Node::Len8(c) | Node::Len16(c) = n {
+            set_octet(c, &path[1..], j, v);
+        }
+    } else if let Node::Bytes(b) = n {
+        b[j] = v;
+    }
+}
+
+fn children_at<'a>(nodes: &'a [Node], path: &[usize]) -> &'a [Node] {
+    if path.is_empty() {
+        return nodes;
+    }
+    match &nodes[path[0]] {
+        Node::Len8(c) | Node::Len16(c) => children_at(c, &path[1..]),
+        _ => &[],
+    }
+}
+
+/// Paths of every sibling list (the root and the content of every length-prefixed container) below `at`.
+fn structures(nodes: &[Node], prefix: &mut Vec<usize>, out: &mut Vec<Vec<usize>>) {
+    out.push(prefix.clone());
+    for (i, n) in nodes.iter().enumerate() {
+        if let Node::Len8(c) | Node::Len16(c) = n {
+            prefix.push(i);
+            structures(c, prefix, out);
+            prefix.pop();
+        }
+    }
+}
+
+/// f8 over the subtree at `root` (the RDLENGTH container of a message tree): every fixed octet is
+/// set to EVERY value 0..=255, crossed with every consistent resize of a variable-length field to
+/// `f8_lengths()` (content truncated or padded with ff, enclosing lengths recomputed on
+/// serialisation). `all_pairs = false`: the octet and the field are siblings of the same
+/// (sub)structure (RDATA root, one EDNS option, one SvcParam value ...) and name labels are not
+/// resized; `true`: every fixed octet of the RDATA with every variable field of the RDATA.
+pub fn value_resize_family(tree: &[Node], root: usize, all_pairs: bool, mut f: impl FnMut(&[Node])) -> u64 {
+    let mut count = 0u64;
+    let lens = f8_lengths();
+    let mut pairs: Vec<((Vec<usize>, usize), Vec<usize>)> = vec![];
+    if all_pairs {
+        let mut octs = vec![];
+        if let Node::Len16(c) = &tree[root] {
+            fixed_octets(c, &mut vec![root], true, &mut octs);
+        }
+        let vars: Vec<Vec<usize>> = fields(tree).into_iter().filter(|p| p[0] == root && p.len() > 1).collect();
+        for o in &octs {
+            for v in &vars {
+                // resizing a container flattens it: an octet inside it would be addressed in vain
+                if !o.0.starts_with(v) {
+                    pairs.push((o.clone(), v.clone()));
+                }
+            }
+        }
+    } else {
+        let mut ss = vec![];
+        if let Node::Len16(c) = &tree[root] {
+            structures(c, &mut vec![root], &mut ss);
+        }
+        for s in ss {
+            let kids = children_at(tree, &s);
+            let mut octs = vec![];
+            fixed_octets(kids, &mut s.clone(), false, &mut octs);
+            for (k, n) in kids.iter().enumerate() {
+                if matches!(n, Node::Len8(_) | Node::Len16(_) | Node::Tail(_)) {
+                    let mut v = s.clone();
+                    v.push(k);
+                    for o in &octs {
+                        pairs.push((o.clone(), v.clone()));
+                    }
+                }
+            }
+        }
+    }
+    for ((opath, j), vpath) in pairs {
+        for &len in &lens {
+            let mut t = resize(tree, &vpath, len, 0xff);
+            for v in 0..=255u8 {
+                set_octet(&mut t, &opath, j, v);
+                f(&t);
+                count += 1;
             }
         }
     }
